@@ -140,9 +140,6 @@ def _compare(flat, acc, skip=()):
     return bad
 
 
-SIGNED = {"mbe", "nmbe", "pnmbe"} | {f"residuals.{k}" for k in ("sum", "mean", "median", "skew", "cvstd")}
-
-
 def check_baseline(obs, pred, p, col, sub):
     """Runs BaselineMetrics on the frame and judges every exposed statistic.  Returns (bm, flat, info) or (None, None, info)."""
     from opendsm.common.metrics import BaselineMetrics
@@ -163,7 +160,7 @@ def check_baseline(obs, pred, p, col, sub):
         return bm, flat, info
     acc, rinfo = ref.baseline_reference(obs, pred, p, +1, flat.get("n_prime"))
     bad = _compare(flat, acc, skip=("num_model_params",))
-    if any(s in SIGNED for s, _, _ in bad):
+    if any(s in ("residuals.sum", "residuals.mean", "mbe") for s, _, _ in bad):
         acc2, rinfo2 = ref.baseline_reference(obs, pred, p, -1, flat.get("n_prime"))
         bad2 = _compare(flat, acc2)
         if len(bad2) < len(bad):
@@ -625,7 +622,7 @@ def run_case(case):
         obs, pred = [_f(s) for s in case["obs"]], [_f(s) for s in case["pred"]]
         rep = ("jan4", "q1_dirty", "zero_savings") if case.get("reporting") else ()
         col = Collector(cap=50)
-        b = run_pair(obs, pred, case["p"], col, stats, {k: v for k, v in case.items() if k not in ("freq", "conf", "tails")} | {}, reporting=rep)
+        b = run_pair(obs, pred, case["p"], col, stats, {k: v for k, v in case.items() if k not in ("freq", "conf", "tails")}, reporting=rep)
         return {"behaviour": b, "violations": col.viol, "stats": stats}
     if kind == "struct":
         obs, pred = make_struct(case["obs_kind"], case["pred_kind"], case["length"], case["contam"])
@@ -656,7 +653,7 @@ def small_cases(tier):
             out.append({"kind": "small", "obs": list(obs), "alpha": "full", "reporting": True})
     alpha = "full" if tier == "thorough" else "sub"
     for obs in itertools.product(ALPHABET if alpha == "full" else SUB_ALPHABET, repeat=3):
-        out.append({"kind": "small", "obs": list(obs), "alpha": alpha, "reporting": alpha == "sub" and tier == "thorough"})
+        out.append({"kind": "small", "obs": list(obs), "alpha": alpha, "reporting": False})
     if tier == "thorough":
         # ReportingMetrics over the n = 3 sub-alphabet as well (the full n = 3 space runs the baseline, gate and identities)
         for obs in itertools.product(SUB_ALPHABET, repeat=3):
